@@ -20,6 +20,26 @@ Definition table := list (N * acct).
 Definition total (P : params) (lvl : N) (t : table) : N :=
   fold_right (fun e acc => bwp P lvl (snd e) + acc) 0 t.
 
+(* the same sum over a cow seen through lookup, for a universe [U] of addresses *)
+Fixpoint sumf (f : N -> N) (U : list N) : N :=
+  match U with [] => 0 | a :: r => f a + sumf f r end.
+
+Definition tot_at (P : params) (lvl : N) (U : list N) (c : cow) : N :=
+  sumf (fun a => bwp P lvl (lookup c a)) U.
+
+(* balances are uint64 and no account's rewards base is ahead of the level *)
+Definition wf_cow (lvl : N) (c : cow) : Prop :=
+  forall a, a_algos (lookup c a) < 2 ^ 64 /\ a_rbase (lookup c a) <= lvl.
+
+(* the ledger before a block, as the bottom of a fresh overlay *)
+Definition base_cow (b : base) : cow := mkCow layer0 [] b.
+
+(* prevTotals.RewardUnits() over the enumerated ledger: units of Online + Offline accounts *)
+Definition part_units (P : params) (x : acct) : N :=
+  match a_status x with NotPart => 0 | _ => a_algos x / p_unit P end.
+Definition units_of (P : params) (U : list N) (c : cow) : N :=
+  sumf (fun a => part_units P (lookup c a)) U.
+
 (* minimum balance requirement, closed form: the sum of the per-resource costs, capped at
    the largest uint64 (the schema part is capped the same way on its own, as is its entry
    count) *)
